@@ -74,7 +74,7 @@ def run(chk):
     # flags of that line) [, its cas token]; store results are reported under the caller's key objects
     from . import rules_C05
 
-    n_rows = rules_C05.retrieval_rows(prog, r3) + rules_C05.storage_rows(prog, r3, keying_only=True)
+    n_rows = rules_C05.retrieval_rows(prog, r3) + rules_C05.storage_rows(prog, r3, keying_only=True, tier=chk.tier)
     r3.floor("decision rows", n_rows, 40)
 
     # ------------------------------------------------------------------ R4 prefix symmetry
